@@ -23,9 +23,17 @@ Proof. intros n k H. split; [apply selections_empty, H|apply it_empty, H]. Qed.
 Theorem C20_binom : forall n k, binom n k = C n k.
 Proof. exact binom_exact. Qed.
 
-(* the same loop in 64-bit arithmetic with overflow detection never overflows for n <= 57 and is exact *)
+(* the loop with the machine arithmetic of the code (usize = 64 bit, product in 128 bit; None = an arithmetic overflow): for EVERY n
+   that a usize can hold and every k it never overflows and returns the exact count when that fits into usize and usize::MAX otherwise
+   (since fix f71c4f2; before, binom(64, 64) = 1 overflowed -- defect D15) *)
+Theorem C20_binom_machine : forall n k, (N.of_nat n < 18446744073709551616)%N ->
+  binom64 (N.of_nat n) (N.of_nat k) = Some (N.min (N.of_nat (C n k)) MAXU).
+Proof. exact binom64_spec. Qed.
+(* ... in particular exact for n <= 57 (the earlier statement) *)
 Theorem C20_binom64 : forall n k, n <= 57 -> binom64 (N.of_nat n) (N.of_nat k) = Some (N.of_nat (C n k)).
 Proof. exact binom64_exact. Qed.
+Example C20_binom_64_64 : binom64 64 64 = Some 1%N /\ binom64 66 33 = Some 7219428434016265740%N /\ binom64 68 34 = Some MAXU.
+Proof. vm_compute. repeat split. Qed.
 
 (* the binary-arithmetic variant of the state machine that the correspondence run evaluates for larger n is the same function *)
 Theorem C20_runN : forall n k fuel st,
@@ -42,6 +50,8 @@ Check C20_iterator : forall n k, 1 <= k <= n ->
   it_run (S (C n k)) n k None = (map Some (rev (seq 0 (S (C n k)))) ++ [Some 0], selections n k).
 Check C20_empty : forall n k, k = 0 \/ n < k -> selections n k = [] /\ forall fuel, snd (it_run fuel n k None) = [].
 Check C20_binom : forall n k, binom n k = C n k.
+Check C20_binom_machine : forall n k, (N.of_nat n < 18446744073709551616)%N ->
+  binom64 (N.of_nat n) (N.of_nat k) = Some (N.min (N.of_nat (C n k)) MAXU).
 Check C20_binom64 : forall n k, n <= 57 -> binom64 (N.of_nat n) (N.of_nat k) = Some (N.of_nat (C n k)).
 Print Assumptions C20_enum.
 Print Assumptions C20_iterator.
@@ -49,4 +59,5 @@ Print Assumptions C20_order.
 Print Assumptions C20_empty.
 Print Assumptions C20_binom.
 Print Assumptions C20_binom64.
+Print Assumptions C20_binom_machine.
 Print Assumptions C20_runN.
